@@ -4,7 +4,7 @@ use crate::ast::{
     PermCheck, PositionalOption, Size, Test, TimeSpec,
 };
 use crate::scheme::error::CompileError;
-use crate::scheme::manager::SchemeManager;
+use crate::scheme::manager::{scheme_escape, SchemeManager};
 use crate::{Mode, SFlag};
 
 #[cfg(target_arch = "wasm32")]
@@ -121,20 +121,29 @@ fn compile_perm_check(buffer: &mut String, check: &PermCheck) {
     buffer.push_str(&code)
 }
 
-fn literal(special: &FormatSpecial) -> String {
-    match special {
+/// Escape literal text for inclusion in the template of a Scheme `format` call: on top of the
+/// string literal escaping, `~` introduces a directive and has to be doubled.
+fn template_escape(input: &str) -> String {
+    scheme_escape(input).replace('~', "~~")
+}
+
+fn literal(special: &FormatSpecial) -> CResult<String> {
+    Ok(match special {
         FormatSpecial::Alarm => "\\a".to_string(),
-        FormatSpecial::Ascii(val) => format!("{}", char::from_u32(*val as u32).unwrap_or('0')),
-        FormatSpecial::Backslash => "\\".to_string(),
+        FormatSpecial::Ascii(val) => {
+            template_escape(&char::from_u32(*val as u32).unwrap_or('0').to_string())
+        }
+        FormatSpecial::Backslash => "\\\\".to_string(),
         FormatSpecial::Backspace => "\\b".to_string(),
         FormatSpecial::CarriageReturn => "\\r".to_string(),
-        FormatSpecial::Clear => "\\c".to_string(),
+        // Stopping the output mid-format cannot be expressed
+        FormatSpecial::Clear => return Err(CompileError::UnsupportedFormat(format!("{special:?}"))),
         FormatSpecial::Form => "\\f".to_string(),
         FormatSpecial::Newline => "\\n".to_string(),
         FormatSpecial::Null => "\\0".to_string(),
         FormatSpecial::TabHorizontal => "\\t".to_string(),
         FormatSpecial::TabVertical => "\\v".to_string(),
-    }
+    })
 }
 
 fn placeholder(field: &FormatField) -> CResult<&'static str> {
@@ -221,21 +230,32 @@ fn snippet(field: &FormatField) -> CResult<Option<String>> {
 
         FormatField::AccessFormatted(f) => match f {
             '@' => "atime".to_string(),
-            f => format!("strftime \"%{f}\" (localtime (atime))"),
+            f => format!(
+                "strftime \"%{}\" (localtime (atime))",
+                scheme_escape(&f.to_string())
+            ),
         }
         .to_string(),
 
         FormatField::ChangeFormatted(f) => match f {
             '@' => "ctime".to_string(),
-            f => format!("strftime \"%{f}\" (localtime (ctime))"),
+            f => format!(
+                "strftime \"%{}\" (localtime (ctime))",
+                scheme_escape(&f.to_string())
+            ),
         },
 
         FormatField::ModifyFormatted(f) => match f {
             '@' => "mtime".to_string(),
-            f => format!("strftime \"%{f}\" (localtime (mtime))"),
+            f => format!(
+                "strftime \"%{}\" (localtime (mtime))",
+                scheme_escape(&f.to_string())
+            ),
         },
 
-        FormatField::XAttr(attr) => format!("or (xattr-ref-string \"{attr}\") \"\"").to_owned(),
+        FormatField::XAttr(attr) => {
+            format!("or (xattr-ref-string \"{}\") \"\"", scheme_escape(attr)).to_owned()
+        }
 
         FormatField::Depth
         | FormatField::DeviceNumber
@@ -256,9 +276,9 @@ impl TargetScheme for Vec<FormatElement> {
         let template = self
             .iter()
             .map(|el| match el {
-                FormatElement::Literal(s) => Ok(s.clone()),
+                FormatElement::Literal(s) => Ok(template_escape(s)),
                 FormatElement::Field(f) => placeholder(f).map(|s| s.to_string()),
-                FormatElement::Special(v) => Ok(literal(v)),
+                FormatElement::Special(v) => literal(v),
             })
             .collect::<CResult<Vec<String>>>()?
             .join("");
@@ -300,7 +320,7 @@ impl TargetScheme for Test {
             Test::Name(s) => buffer.push_str(&format!("(call-with-name {})", ctx.get_matcher(s, false))),
             Test::Path(s) => buffer.push_str(&format!("(call-with-relative-path {})", ctx.get_matcher(s, false))),
             Test::Perm(check) => compile_perm_check(buffer, check),
-            Test::Pool(pool_name) => buffer.push_str(&format!("(member \"{pool_name}\" (lov-pools))")),
+            Test::Pool(pool_name) => buffer.push_str(&format!("(member \"{}\" (lov-pools))", scheme_escape(pool_name))),
             Test::Readable => buffer.push_str("(readable)"),
             Test::Size(cmp) => compile_size_comp(buffer, &cmp),
             Test::StripeCount(cmp) => buffer.push_str(&format_cmp!(cmp, "lov-stripe-count")),
@@ -308,10 +328,12 @@ impl TargetScheme for Test {
             Test::Type(list) => compile_type_list_comp(buffer, list),
             Test::UserId(cmp) => buffer.push_str(&format_cmp!(cmp, "uid")),
             Test::Writable => buffer.push_str("(writable)"),
-            Test::Xattr(field) => buffer.push_str(&format!("(xattr? \"{field}\")")),
+            Test::Xattr(field) => buffer.push_str(&format!("(xattr? \"{}\")", scheme_escape(field))),
             Test::XattrMatch(field, value) => {
                 let offending = |c:char| {"*?['".contains(c)};
-                if !(field.contains(offending) || value.contains(offending)) {
+                let globbing = field.contains(offending) || value.contains(offending);
+                let (field, value) = (scheme_escape(field), scheme_escape(value));
+                if !globbing {
                     buffer.push_str(&format!("(equal? (xattr-ref-string \"{field}\") \"{value}\")"));
                 } else {
                     buffer.push_str(&format!("(xattr-match? \"{field}\" \"{value}\")"));
